@@ -3589,6 +3589,10 @@ impl Zeroconf {
             // Binds a `listener` to querying mDNS domain type `ty`.
             //
             // If there is already a `listener`, it will be updated, i.e. overwritten.
+            // The pending query of the search it replaces goes away with it, so
+            // that there is only one query schedule per service type.
+            self.retransmissions
+                .retain(|rerun| !matches!(&rerun.command, Command::Browse(t, _, _, _) if t == &ty));
             self.service_queriers.insert(ty.clone(), listener.clone());
 
             // if we already have the records in our cache, just send them
@@ -3633,6 +3637,13 @@ impl Zeroconf {
             return;
         }
         if !repeating {
+            // A new search replaces the previous one for the same host name,
+            // including its pending query.
+            let hostname_lower = hostname.to_lowercase();
+            self.retransmissions.retain(|rerun| {
+                !matches!(&rerun.command, Command::ResolveHostname(h, _, _, _)
+                    if h.to_lowercase() == hostname_lower)
+            });
             self.add_hostname_resolver(hostname.to_owned(), listener.clone(), timeout);
             // if we already have the records in our cache, just send them
             self.query_cache_for_hostname(&hostname, listener.clone());
